@@ -244,13 +244,11 @@ CO_ERR CODictObjInit(CO_DICT *cod, CO_NODE *node)
 
     obj = cod->Root;
     while (obj->Key != 0) {
-        obj++;
-        if (obj->Key != 0) {
-            err = COObjInit(obj, node);
-            if (err != CO_ERR_NONE) {
-                result = err;
-            }
+        err = COObjInit(obj, node);
+        if (err != CO_ERR_NONE) {
+            result = err;
         }
+        obj++;
     }
     return (result);
 }
